@@ -5,16 +5,9 @@ from props import _fetch
 
 LEVEL = "proof"
 MODULE = "Phil.Props.C08"
-LEVEL_TEXT = ("Lean theorems about the merge model in diff mode: every definition kept in a difference renders differently from "
-              "the master default under extract_format (minimality), empty scopes are dropped, the difference of the master's "
-              "own defaults is empty; restore (merge the difference back = W on extracted values) is proved for masters without "
-              "nested multiples whose working set does not re-list a master-provided further occurrence after a user instance "
-              "(partial; witness theorem for finding D10). The model is tied to /repo by a correspondence run of fetch(diff=True) "
-              "and of the re-merge; the oracle evaluates the four clauses of the statement on the implementation, incl. the "
-              "printed/re-parsed difference.")
-LEVEL_NOTE = ("closed form (diff, minimality, restore, fixed point) proved for flat masters; findings on the unchanged tree: D10 "
-              "(re-merge reorders a master-provided instance), D42 (floats equal to ten significant digits).")
-TECHNIQUE = "Lean 4 theorems on the diff-mode fetch model (minimality, self-diff empty, restore partial) + differential correspondence + oracle"
+LEVEL_TEXT = "Lean theorems about the merge model in diff mode: the difference as an explicit function of master and sources on nested masters with .multiple definitions (diff_tree_total), minimality (diff_tree_minimal), no empty scope, self-diff empty, diff of the working tree = diff of the sources, restore (restore_tree, _exact, _values, _at_path), fixed point of diff/restore (diff_restore_tree_fixed_point); structural facts for all masters (diff_no_empty_scopes, diff_conforms, diff_split_law); kernel-checked witnesses for findings D10, D42. Tied to /repo by a correspondence run of fetch(diff=True) and of the re-merge; the oracle evaluates the four clauses of the statement on the implementation, incl. masters reached by a route (fetch / format / copy / deepcopy / pickle / reparse of an already used master), the printed difference, phil --diff and the index's get_diff."
+LEVEL_NOTE = 'Closed form excludes .multiple scopes (general theorems + correspondence there). Findings on the unchanged tree: D10 (re-merge reorders a master-provided instance; also for .multiple scopes), D42 (floats equal to ten significant digits).'
+TECHNIQUE = 'Lean 4 closed form of diff / restore on the fetch model + differential correspondence + four-clause oracle'
 RULE = ("masters x working parameter sets reachable by fetch from generated sources (added, repeated and template-equal instances of "
         ".multiple objects, choices, Auto/None, non-canonical spellings); non-trivial = the difference is non-empty; "
         "impl-only stream: the same clauses on masters reached by a route from their text (used before, then derived by fetch / "
